@@ -3,6 +3,7 @@
             (block ...)   block = (id parent num gaslimit basefee (nonce...) (balance...) (txid...)); first = genesis
             (tx ...)      tx    = (id from nonce gas feecap tip value slots intr)
             (op ...) )    op    = (0 txid...) Add(sync) | (1 blockid) Reset(head -> block) | (2 tip) SetGasTip
+                           | (3) Content | (4 acct) ContentFrom | (5) Pending | (6) Stats   (public listings)
    obs  = one entry per op: ( (errclass...) dump ), or (63) from the first op on at which the
           queue truncation may have depended on Go's map iteration order (see harness/c41). *)
 From GV Require Import Lib.Sx Pool.Legacy.
@@ -40,7 +41,7 @@ Definition sorted_ids (l : list tx) : sx := SL (map sn (sort_N (map t_id l))).
 Definition dump_list (o : option tlist) : sx :=
   match o with
   | None => SL []
-  | Some l => SL [ids (l_txs l); SI (l_total l)]
+  | Some l => SL [ids (l_txs l); SI (l_total l); sopt ids (l_cache l)]
   end.
 
 Definition dump (st : pool) : sx :=
@@ -81,13 +82,18 @@ Definition norm_priced (st : pool) : pool :=
      Nat.ltb (N.to_nat (c_gslots c)) (pending_count st + length (c_accts c))
   then priced_reheap st else st.
 
-Inductive dop := DAdd (txs : list tx) | DReset (b : block) | DTip (tip : N).
+Inductive dop := DAdd (txs : list tx) | DReset (b : block) | DTip (tip : N)
+                | DContent | DContentFrom (a : N) | DPending | DStats.
 
 Definition dec_op (txs : list tx) (blocks : list block) (s : sx) : option dop :=
   match sx_list_of sx_N s with
   | Some (0 :: tids) => match opt_map (find_tx txs) tids with Some l => Some (DAdd l) | None => None end
   | Some [1; bid] => match get_block blocks bid with Some b => Some (DReset b) | None => None end
   | Some [2; tip] => Some (DTip tip)
+  | Some [3] => Some DContent
+  | Some [4; a] => Some (DContentFrom a)
+  | Some [5] => Some DPending
+  | Some [6] => Some DStats
   | _ => None
   end.
 
@@ -96,11 +102,19 @@ Fixpoint run_ops (blocks : list block) (ops : list dop) (head : block) (st : poo
   | [] => []
   | o :: rest =>
       let t0 := p_clock st in
-      let '(st1, errs, head1) :=
+      let '(st1, out, head1) :=
         match o with
-        | DAdd txs => let '(s, e) := pool_Add txs st in (s, e, head)
-        | DReset b => (run_reorg_reset blocks head b st, [], b)
-        | DTip tip => (pool_SetGasTip tip st, [], head)
+        | DAdd txs => let '(s, e) := pool_Add txs st in (s, SL (map sn e), head)
+        | DReset b => (run_reorg_reset blocks head b st, SL [], b)
+        | DTip tip => (* Go removes in map order, which decides which sorted caches survive:
+                         both sides list everything afterwards, filling all caches *)
+                      (snd (pool_Content (pool_SetGasTip tip st)), SL [], head)
+        | DContent => let '(pq, s) := pool_Content st in
+                      (s, SL (map (fun '(p, q) => SL [ids p; ids q]) pq), head)
+        | DContentFrom a => let '(pq, s) := pool_ContentFrom a st in
+                      (s, SL [ids (fst pq); ids (snd pq)], head)
+        | DPending => let '(ps, s) := pool_Pending st in (s, SL (map ids ps), head)
+        | DStats => (st, SL [snat (pending_count st); snat (queue_count st)], head)
         end in
       (* SetGasTip removes txs in Go's map order, which decides whether a queue entry (and its
          heartbeat) is deleted and recreated or survives: all heartbeats are re-issued after it *)
@@ -108,7 +122,7 @@ Fixpoint run_ops (blocks : list block) (ops : list dop) (head : block) (st : poo
       if negb is_tip && ambiguous t0 st1 then [SL [SI 99]]
       else
         let st2 := norm_priced (canon_beats (if is_tip then 0 else t0) st1) in
-        SL [SL (map sn errs); dump st2] :: run_ops blocks rest head1 st2
+        SL [out; dump st2] :: run_ops blocks rest head1 st2
   end.
 
 Definition C41_run (c : sx) : sx :=
